@@ -93,6 +93,40 @@ fn pair_values(r: &mut Rng, sn: usize, dw: u32, count: usize) -> Vec<B> {
             v.push(gen::add1(&gen::negate(&p)));
         }
     }
+    // the extremes of narrower digit types as whole digits of the source (constants / masks of the wrong digit type):
+    // systematically the all-ones value of every narrower digit width as one non-top digit of the source at every wider
+    // granularity, lowest and highest non-top position, either sign, the other digits random; plus mixed draws
+    for g in [2usize, 4, 8] {
+        if 2 * g > sn {
+            continue;
+        }
+        let nd = sn / g;
+        for j in [1usize, 2, 4] {
+            if j >= g {
+                continue;
+            }
+            for pos in [0usize, nd - 2] {
+                for neg in [false, true] {
+                    if count < 40 && r.below(2) == 0 {
+                        continue;
+                    }
+                    let mut x = gen::random(r, sn);
+                    for t in 0..g {
+                        x[pos * g + t] = if t < j { 0xff } else { 0 };
+                    }
+                    if neg {
+                        x[sn - 1] |= 0x80;
+                    } else {
+                        x[sn - 1] &= 0x7f;
+                    }
+                    v.push(x);
+                }
+            }
+        }
+    }
+    for _ in 0..(if count >= 40 { 12 } else { 4 }) {
+        v.push(gen::narrow_in_wide(r, sn));
+    }
     let bnd = gen::boundary(sn);
     let count = count.max(v.len() + 3);
     while v.len() < count {
